@@ -8,7 +8,7 @@
 From Coq Require Import ZArith Bool List.
 From ArmV Require Import Lib.PyZ Lib.Monad Lib.Machine Spec.Pseudocode Spec.Arch Spec.MachineView Spec.Branches Spec.StepFrame
   Spec.OperandSpec Spec.DPSem Proofs.StateLemmas Proofs.CondProofs Proofs.GuardProofs Proofs.DPLemmas Proofs.StepProofs Proofs.StepDP
-  Proofs.StepInstances Proofs.StepInstancesArm Proofs.StepInstancesThumb Proofs.DPRange Proofs.StepDPReg Proofs.StepInstancesArmReg Proofs.StepInstancesCmp Proofs.StepInstancesArmRsr Proofs.StepInstancesThumbReg Proofs.StepInstancesMov Proofs.StepInstancesThumb2 Proofs.StepInstancesShift Proofs.StepInstancesThumb2Reg Proofs.MemProofs Proofs.StepFetch Proofs.StepClosed Proofs.StepInstancesExample.
+  Proofs.StepInstances Proofs.StepInstancesArm Proofs.StepInstancesThumb Proofs.DPRange Proofs.StepDPReg Proofs.StepInstancesArmReg Proofs.StepInstancesCmp Proofs.StepInstancesArmRsr Proofs.StepInstancesThumbReg Proofs.StepInstancesMov Proofs.StepInstancesThumb2 Proofs.StepInstancesShift Proofs.StepInstancesThumb2Reg Proofs.StepInstancesCmpReg Proofs.MemProofs Proofs.StepFetch Proofs.StepClosed Proofs.StepInstancesExample.
 From Gen Require Import enums opsyn core exec conc decoders step.
 Import ListNotations.
 Open Scope Z_scope.
@@ -952,6 +952,56 @@ Theorem C01_rsbRegisterT1_step cfg s w s1 :
     pc_of (AdvancePC (it_step_after s1 s2)) = add32 (pc_of s1) 4.
 Proof. exact (rsbRegisterT1_step cfg s w s1). Qed.
 Print Assumptions C01_rsbRegisterT1_step.
+
+(* TST, TEQ, CMP, CMN (register, ARM A1): cond != 1111, 00010 opc 1 Rn (0000) imm5 type 0 Rm *)
+Theorem C01_tstRegisterA1_step cfg s w s1 :
+  ArmV6_fetch_instruction cfg s = Ok w s1 ->
+  0 <= w < 2 ^ 32 -> is_cmp_reg_a1 1 0 0 0 w -> iset_of s1 = 0 -> ictx cfg s1 -> cond_holds s1 ->
+  let n := bits w 19 16 in let m := bits w 3 0 in let sh := DecodeImmShift (bits w 6 5) (bits w 11 7) in
+  let op := (code_TstRegister, [w; m; n; fst sh; snd sh]) in
+  exists s2,
+    dp_sem cfg AND 1 None n (Op2Reg m (fst sh) (snd sh)) (begin_instr s1 op) = Ok tt s2 /\
+    ArmV6_emulate_cycle cfg s = Ok tt (AdvancePC (it_step_after s1 s2)) /\
+    pc_of (AdvancePC (it_step_after s1 s2)) = add32 (pc_of s1) (opcode_len s1 / 8) /\
+    (forall k, 0 <= k -> k <> pc_index -> getl (R (AdvancePC (it_step_after s1 s2))) k = getl (R s1) k).
+Proof. exact (tstRegisterA1_step cfg s w s1). Qed.
+Print Assumptions C01_tstRegisterA1_step.
+Theorem C01_teqRegisterA1_step cfg s w s1 :
+  ArmV6_fetch_instruction cfg s = Ok w s1 ->
+  0 <= w < 2 ^ 32 -> is_cmp_reg_a1 1 0 0 1 w -> iset_of s1 = 0 -> ictx cfg s1 -> cond_holds s1 ->
+  let n := bits w 19 16 in let m := bits w 3 0 in let sh := DecodeImmShift (bits w 6 5) (bits w 11 7) in
+  let op := (code_TeqRegister, [w; m; n; fst sh; snd sh]) in
+  exists s2,
+    dp_sem cfg EOR 1 None n (Op2Reg m (fst sh) (snd sh)) (begin_instr s1 op) = Ok tt s2 /\
+    ArmV6_emulate_cycle cfg s = Ok tt (AdvancePC (it_step_after s1 s2)) /\
+    pc_of (AdvancePC (it_step_after s1 s2)) = add32 (pc_of s1) (opcode_len s1 / 8) /\
+    (forall k, 0 <= k -> k <> pc_index -> getl (R (AdvancePC (it_step_after s1 s2))) k = getl (R s1) k).
+Proof. exact (teqRegisterA1_step cfg s w s1). Qed.
+Print Assumptions C01_teqRegisterA1_step.
+Theorem C01_cmpRegisterA1_step cfg s w s1 :
+  ArmV6_fetch_instruction cfg s = Ok w s1 ->
+  0 <= w < 2 ^ 32 -> is_cmp_reg_a1 1 0 1 0 w -> iset_of s1 = 0 -> ictx cfg s1 -> cond_holds s1 ->
+  let n := bits w 19 16 in let m := bits w 3 0 in let sh := DecodeImmShift (bits w 6 5) (bits w 11 7) in
+  let op := (code_CmpRegister, [w; m; n; fst sh; snd sh]) in
+  exists s2,
+    dp_sem cfg SUB 1 None n (Op2Reg m (fst sh) (snd sh)) (begin_instr s1 op) = Ok tt s2 /\
+    ArmV6_emulate_cycle cfg s = Ok tt (AdvancePC (it_step_after s1 s2)) /\
+    pc_of (AdvancePC (it_step_after s1 s2)) = add32 (pc_of s1) (opcode_len s1 / 8) /\
+    (forall k, 0 <= k -> k <> pc_index -> getl (R (AdvancePC (it_step_after s1 s2))) k = getl (R s1) k).
+Proof. exact (cmpRegisterA1_step cfg s w s1). Qed.
+Print Assumptions C01_cmpRegisterA1_step.
+Theorem C01_cmnRegisterA1_step cfg s w s1 :
+  ArmV6_fetch_instruction cfg s = Ok w s1 ->
+  0 <= w < 2 ^ 32 -> is_cmp_reg_a1 1 0 1 1 w -> iset_of s1 = 0 -> ictx cfg s1 -> cond_holds s1 ->
+  let n := bits w 19 16 in let m := bits w 3 0 in let sh := DecodeImmShift (bits w 6 5) (bits w 11 7) in
+  let op := (code_CmnRegister, [w; m; n; fst sh; snd sh]) in
+  exists s2,
+    dp_sem cfg ADD 1 None n (Op2Reg m (fst sh) (snd sh)) (begin_instr s1 op) = Ok tt s2 /\
+    ArmV6_emulate_cycle cfg s = Ok tt (AdvancePC (it_step_after s1 s2)) /\
+    pc_of (AdvancePC (it_step_after s1 s2)) = add32 (pc_of s1) (opcode_len s1 / 8) /\
+    (forall k, 0 <= k -> k <> pc_index -> getl (R (AdvancePC (it_step_after s1 s2))) k = getl (R s1) k).
+Proof. exact (cmnRegisterA1_step cfg s w s1). Qed.
+Print Assumptions C01_cmnRegisterA1_step.
 
 (* no hypothesis left about the stages of the cycle: ARM state, flat memory map (PMSA, MPU off), word-aligned PC; the instruction is
    whatever word the memory holds at the PC (Props/C13step.v discharges the fetch) *)
